@@ -199,26 +199,28 @@ type Client struct {
 	Calls int
 	// Fault is called before the call is executed (applied=false) and after the
 	// chain executed it but before the reply is returned (applied=true). It may
-	// panic to simulate a crash of the calling process.
-	Fault func(call RPCCall, applied bool)
+	// panic to simulate a crash of the calling process, or return an error that
+	// the call then returns instead of its result (a network error).
+	Fault func(call RPCCall, applied bool) error
 	// Log of the calls (method names), for twin comparison.
 	Log []string
 }
 
-func (cl *Client) enter(method string) RPCCall {
+func (cl *Client) enter(method string) (RPCCall, error) {
 	call := RPCCall{Seq: cl.Calls, Method: method}
 	cl.Calls++
 	cl.Log = append(cl.Log, method)
 	if cl.Fault != nil {
-		cl.Fault(call, false)
+		return call, cl.Fault(call, false)
 	}
-	return call
+	return call, nil
 }
 
-func (cl *Client) leave(call RPCCall) {
+func (cl *Client) leave(call RPCCall) error {
 	if cl.Fault != nil {
-		cl.Fault(call, true)
+		return cl.Fault(call, true)
 	}
+	return nil
 }
 
 // Block(nil) reports the latest block; its LastCommit is the commit of the
@@ -227,9 +229,14 @@ func (cl *Client) Block(_ context.Context, h *int64) (*coretypes.ResultBlock, er
 	if h != nil {
 		panic("shmx: Block with explicit height is not used by the keyper")
 	}
-	call := cl.enter("Block")
-	defer cl.leave(call)
+	call, err := cl.enter("Block")
+	if err != nil {
+		return nil, err
+	}
 	latest := cl.Chain.Committed
+	if err := cl.leave(call); err != nil {
+		return nil, err
+	}
 	if latest == 0 {
 		return &coretypes.ResultBlock{}, nil
 	}
@@ -240,12 +247,17 @@ func (cl *Client) Block(_ context.Context, h *int64) (*coretypes.ResultBlock, er
 }
 
 func (cl *Client) BlockResults(_ context.Context, h *int64) (*coretypes.ResultBlockResults, error) {
-	call := cl.enter("BlockResults")
-	defer cl.leave(call)
 	if h == nil {
 		panic("shmx: BlockResults(nil) is not used by the keyper")
 	}
+	call, err := cl.enter("BlockResults")
+	if err != nil {
+		return nil, err
+	}
 	b, ok := cl.Chain.Blocks[*h]
+	if err := cl.leave(call); err != nil {
+		return nil, err
+	}
 	if !ok {
 		return nil, fmt.Errorf("height %d must be less than or equal to the current blockchain height %d", *h, cl.Chain.Committed)
 	}
@@ -253,19 +265,29 @@ func (cl *Client) BlockResults(_ context.Context, h *int64) (*coretypes.ResultBl
 }
 
 func (cl *Client) BlockchainInfo(_ context.Context, _, _ int64) (*coretypes.ResultBlockchainInfo, error) {
-	call := cl.enter("BlockchainInfo")
-	defer cl.leave(call)
+	call, err := cl.enter("BlockchainInfo")
+	if err != nil {
+		return nil, err
+	}
 	res := &coretypes.ResultBlockchainInfo{LastHeight: cl.Chain.Committed}
 	if cl.Chain.Committed > 0 {
 		res.BlockMetas = []*tmtypes.BlockMeta{{Header: tmtypes.Header{ChainID: ChainID, Height: cl.Chain.Committed}}}
+	}
+	if err := cl.leave(call); err != nil {
+		return nil, err
 	}
 	return res, nil
 }
 
 func (cl *Client) BroadcastTxCommit(_ context.Context, tx tmtypes.Tx) (*coretypes.ResultBroadcastTxCommit, error) {
-	call := cl.enter("BroadcastTxCommit")
+	call, err := cl.enter("BroadcastTxCommit")
+	if err != nil {
+		return nil, err
+	}
 	res := cl.Chain.Broadcast(tx)
-	cl.leave(call)
+	if err := cl.leave(call); err != nil {
+		return nil, err
+	}
 	return res, nil
 }
 
